@@ -81,6 +81,9 @@ var zzCancelWrappers = []struct{ name, pre, post string }{
 	{"try-catch", "try { ", " } catch e { p(98) }"},
 	{"try-catch-finally", "try { ", " } catch e { p(98) } finally { p(97) }"},
 	{"nil-coalesce-left", "x = (func() { ", " }()) ?? 1"},
+	{"nil-coalesce-in-list", "x = [(func() { ", " }()) ?? 1, p(99)]"},
+	{"nil-coalesce-in-call", "p((func() { ", " }()) ?? 99)"},
+	{"nil-coalesce-nested", "x = ((func() { ", " }()) ?? nil) ?? p(99)"},
 	{"if-body", "if true { ", " }"},
 	{"switch-body", "switch 1 { case 1: ", " }"},
 	{"module", "module m { ", " }"},
@@ -92,6 +95,8 @@ var zzCancelWrappers = []struct{ name, pre, post string }{
 }
 
 func zzCancelRun(core, wrapper, cancelAt int, blocking bool) {
+	// the interrupted construct is followed by another statement, or is the last one
+	trailing := zz.Choose(2) == 0
 	c := zzCancelCores[core]
 	w := zzCancelWrappers[wrapper]
 	ctx := zzNewCtx(cancelAt)
@@ -106,8 +111,14 @@ func zzCancelRun(core, wrapper, cancelAt int, blocking bool) {
 	zz.ResetTrace()
 	zz.Budget(3000000)
 	id := c.name + "/" + w.name
+	src := w.pre + c.src + w.post
+	if trailing {
+		src += "\np(99)"
+	} else {
+		id += "/last-statement"
+	}
 	zz.UnwindIsViolation("terminates.C02/" + id)
-	_, err := ExecuteContext(ctx, e, &Options{Debug: false}, w.pre+c.src+w.post+"\np(99)")
+	_, err := ExecuteContext(ctx, e, &Options{Debug: false}, src)
 	zz.Assert(ctx.closed, "C02.cancellation-was-delivered/"+id)
 	zz.Assert(err != nil && err.Error() == ErrInterrupt.Error(), "C02.returns-execution-interrupted/"+id)
 	if ctx.observedAt >= 0 {
